@@ -791,7 +791,11 @@ def run_wire_engine(ctx, spec):
     what = {1: "Commit.WriteTo's bytes differ from commit_enc", 2: "commit_dec does not decode the bytes back to the commit", 3: "Commit.ReadFrom accepts/rejects a prefix differently from commit_dec"}
     for case, tag in bad[:4]:
         w = what.get(tag, str(tag))
-        if case >= 200000:
+        if case >= 300000:
+            w = {1: "a real snapshot file is not the framing (type, 3-byte length, body) S2Frame.stream_enc gives for its chunks",
+                 2: "S2Frame.unframe delivers something else than the real s2 reader for a complete snapshot file",
+                 3: "for a prefix of a real snapshot file the real s2 reader delivers other bytes / another verdict than S2Frame.unframe"}.get(tag, str(tag))
+        elif case >= 200000:
             w = swhat.get(tag, str(tag))
         elif case >= 100000:
             w = w.replace("Commit.WriteTo", "Buffer.WriteTo").replace("commit_enc", "wbuffer_enc").replace("commit_dec", "wbuffer_dec")
@@ -822,7 +826,7 @@ PROPS = {
                 rule="2-3 writers merging (additive and order-sensitive v*3+d) into overlapping rows of 1-2 blocks with readers; final value = fold of the committed deltas in latch order"),
     "C10": dict(engines=[S("rows", 250, 4000, dfs_quick=300, dfs_thorough=8000), H("values", 30, 300)],
                 rule="writers preserving a+b=100 on every row beside point and range readers reading a, yielding, reading b; every recorded schedule is also replayed through the latch protocol model; plus sequential histories of every column kind (every value a reader is handed is one some transaction committed)"),
-    "C07": dict(engines=[H("restore", 60, 800), H("dense", 3, 24, per_shard=1)],
+    "C07": dict(engines=[H("restore", 60, 800), H("dense", 3, 24, per_shard=1), dict(engine="wire", quick=8, thorough=80, states_quick=12, states_thorough=120)],
                 rule="histories with snapshot->restore->continue cycles; non-trivial = a restore after >=2 commits"),
     "C11": dict(engines=[H("alloc", 60, 800), dict(engine="alloc", quick=300, thorough=6000), S("ins", 150, 3000, dfs_thorough=4000, locks=False)],
                 rule="insert/delete heavy histories; non-trivial = >=3 inserts with a delete or offset reuse"),
